@@ -314,3 +314,7 @@ def run(ctx, facts):
     C04.drawseq_rule(ctx, facts, C04.SS + "sketch")
     C04.deleg_slice(ctx, facts, C04.SMH + "sketch_slice")
     C04.deleg_slice(ctx, facts, C04.SS + "sketch_slice")
+    # "all interleavings of sketch / merge / further sketch calls": a sketcher brought back by reinit is a new one
+    from . import C13
+    ctx.rule("REINIT", "reinit re-establishes every live mutated field of SuperMinHash and SetSketcher with the constructor's value (RESET analysis of C13)")
+    C13.require_verified_reset(ctx, facts, [C13.SMH, C13.SS], "REINIT")
